@@ -261,6 +261,8 @@ class Gen:
 
     def val(self, kind, narrow):
         d = DOM[kind]
+        if kind == 'iface' and self.r.chance(1, 5):
+            return '3'      # the interface value that is itself a []interface{} (members: values 0 and 1)
         if narrow and len(d) > 2:
             d = d[:2] + (d[-1] if d[-1] == 'n' and self.r.chance(1, 4) else '')
         return self.r.choice(d)
@@ -276,7 +278,9 @@ class Gen:
         self.count('spec.in' if depth == 0 else 'spec.in.nested')
         alts = []
         for _ in range(1 + self.r.below(maxalts)):
-            alts.append((self.r.chance(1, 3), [self.spec(kind, depth + 1, maxdepth, maxalts)]))
+            inner = self.spec(kind, depth + 1, maxdepth, maxalts)
+            # a bare []interface{} alternative IS a tuple for goom's API; as one value it has to be written [v]
+            alts.append((self.r.chance(1, 3) or (kind == 'iface' and inner == ('v', '3')), [inner]))
         return ('i', alts)
 
     def arity(self, name, maxtail=3):
@@ -305,6 +309,10 @@ class Gen:
             self.count('clause.when')
             return ['when', ','.join(show_spec(s) for s in sp) if sp else '-'], ('when', sp)
         alts, toks = [], []
+        if self.r.chance(1, 20):
+            self.count('clause.in.empty')
+            self.count('clause.in')
+            return ['in'], ('in', [])       # In() without alternatives: a condition that never holds
         for ai in range(1 + self.r.below(8 if big else 3)):
             n = self.arity(name, maxtail)
             form = self.r.below(10)
@@ -322,6 +330,8 @@ class Gen:
                 s = self.spec(kind_at(name, 0), **kw)
                 if v and kind_at(name, 0) == 'slice' and s[0] == 'v':
                     s = ('*',)      # a bare []int value IS a typed slice for goom: written as <..> above instead
+                if kind_at(name, 0) == 'iface' and s == ('v', '3'):
+                    s = ('*',)      # a bare []interface{} IS a tuple for goom
                 toks.append(show_spec(s))
                 alts.append([s])
                 self.count('in.alt.bare')
@@ -335,6 +345,8 @@ class Gen:
 
     def instance(self, name, cond):
         """an argument tuple that satisfies (or nearly satisfies) a condition"""
+        if cond[0] == 'in' and not cond[1]:
+            return None         # In() without alternatives: nothing satisfies it
         specs = cond[1] if cond[0] == 'when' else self.r.choice(cond[1])
         xs = []
         for j, s in enumerate(specs):
@@ -349,7 +361,7 @@ class Gen:
         xs = None
         if conds and self.r.chance(6, 10):
             xs = self.instance(name, self.r.choice(conds))
-            if not arity_ok(name, len(xs)):
+            if xs is not None and not arity_ok(name, len(xs)):
                 xs = None
         if xs is None:
             n = len(k) - 1 + self.r.below(4) if v else len(k)
@@ -371,7 +383,8 @@ class Gen:
         p = self.r.below(100)
         mode = 'call' if p < 40 else 'callm' if p < 50 else 'calld' if p < 75 else 'eval'
         direct = mode == 'calld'
-        head = ['c04', mode, name, sig_of(name)] + (['s'] if self.r.chance(1, 4) else [])
+        opts = ('s' if self.r.chance(1, 4) else '') + ('d' if self.r.chance(1, 12) else '')
+        head = ['c04', mode, name, sig_of(name)] + ([opts] if opts else [])
         steps, conds, rid = [], [], 1
         have_default = self.r.chance(7, 10)
         if have_default:
@@ -407,7 +420,7 @@ class Gen:
                 for _ in range(1 + self.r.below(2)):
                     n = self.arity(name)
                     sp = self.specs(name, n)
-                    if n == 1 and self.r.chance(1, 2):
+                    if n == 1 and self.r.chance(1, 2) and not (kind_at(name, 0) == 'iface' and sp[0] == ('v', '3')):
                         prs.append(f'{show_spec(sp[0])}={rid}')          # Pair.Args not wrapped in []interface{}
                         self.count('matches.bare-args')
                     else:
@@ -483,6 +496,11 @@ REGRESS = [  # past failures / the documented defect inputs / review and seed wi
     'c04 call MV1 n=2,v=1,m=1,o=1 | ret 0 ; in [0,1] [1,0] [1,1,1] ; ret 2 ; conc 300 0:0,1 1:1,0 0:1,1,1 1:0,0 1:1',
     'c04 call f1sl n=1,v=0,m=0,o=1 | ret 0 ; when 1 ; ret 1 ; when 0 ; ret 2 ; call - 2 ; call - 1 ; call - 0 ; call - 3',  # seed c04-3 (slice windows)
     'c04 call v1sl n=2,v=1,m=0,o=1 | ret 0 ; when 1,1 ; ret 1 ; when 2,* ; ret 2 ; call - 2,1 ; call - 1,1 ; call - 0,1',
+    'c04 call v1i n=2,v=1,m=0,o=1 | ret 0 ; when 2,3 ; ret 1 ; when 2,0,1 ; ret 2 ; call - 2,3 ; call - 2,0,1 ; call - 2,3,3',  # seed out5/c04-1: a []interface{} as ONE element
+    'c04 call v0i n=1,v=1,m=0,o=1 | when 3 ; ret 1 ; call - 3 ; call - 0,1',
+    'c04 call f1 n=1,v=0,m=0,o=1 | ret 0 ; when 1 ; ret 1 ; in ; ret 2 ; call - 1 ; call - 1 ; call - 0 ; call - 0',               # seed out5/c05-2: In() without alternatives
+    'c04 eval f1 n=1,v=0,m=0,o=1 | in ; ret 2 ; call - 1 ; when 1 ; ret 3 ; call - 1',
+    'c04 call f1 n=1,v=0,m=0,o=1 d | when 1 ; ret 1 ; call - 0 ; call - 1',                                                       # seed out5/c04-3: debug mode keeps the panic
     'c04 call U1 n=1,v=0,m=2,o=1 | ret 0 ; call 0 1 ; call 1 1',                                                           # As(): default only
     'c04 call I1 n=1,v=0,m=1,o=1 | ret 0 ; when 1 ; ret 5 ; call - 1 ; call - 0 ; when 0 ; ret 6 ; call - 0',
 ]
@@ -503,8 +521,10 @@ def oracle(op, obs, stats=None):
     events, wf, k1, name, mode = walk(op)
     if not wf:
         return None
-    if obs is None or obs == 'crash':
-        return ('no observation: the probe process died on this line (twice)', None, None)
+    if obs is None:
+        return None                 # not run (the probe was stopped after too many deaths): run() accounts for these
+    if obs == 'crash':
+        return ('no observation: the probe process died or hung on this line, twice (alone the second time)', None, None)
     if obs.startswith('bad-') or 'probe-panic' in obs:
         return None                 # not a statement about goom (run() turns these into a machinery error)
     toks = obs.split()
@@ -519,7 +539,7 @@ def oracle(op, obs, stats=None):
             head, steps = split_line(op)
             if m == 2 and got == 'panic:reject' and steps[i][0] in ('when', 'in', 'matches'):
                 # K2, narrow: exactly "the receiver counts as a parameter": the first When/In written for the method is refused
-                if not any(s[0] in ('when', 'in', 'matches') for s in steps[:i]):
+                if not any(s[0] in ('when', 'in', 'matches') and s != ['in'] for s in steps[:i]):   # an In() without alternatives checks no arity
                     key = 'K2-as-method-receiver-is-parameter'
             return (f'well-formed configuration is not accepted: step {i} `{" ".join(steps[i])}` gave {got}', key, i)
         if ev[0] == 'call':
@@ -573,16 +593,31 @@ def build_probe():
     return b
 
 
+ALONE_BUDGET = int(os.environ.get('VERIF_C04_ALONE_BUDGET', '120'))     # seconds for the single-line retry
 PROBE_ENV = {'GOOM_DEBUG': '', 'GODEBUG': '', 'GOGC': '', 'GOMAXPROCS': '', 'GOTRACEBACK': 'single'}
 
 
-def run_impl(binary, ops_path, out_path, n):
-    """Run the probe.  If the process dies (a crash in patched code, a kill, a timeout) the run resumes at the line it
-    died on; that line is retried ONCE on its own and only a second death is recorded as `crash`."""
+def run_impl(binary, ops_path, out_path, n, budget=None):
+    """Run the probe.  If the process dies or hangs (a crash in patched code, a kill, a deadlock) the run resumes at the
+    line it stopped on; that line is retried ONCE on its own (2 minutes) and only a second death/hang is recorded as
+    `crash`, which the oracle reports with the line as replay.  Every run has a deadline, so a hang ends in a verdict."""
+    import subprocess
     impl = [None] * n
     start, deaths, retried = 0, 0, set()
+    budget = budget or int(os.environ.get('VERIF_C04_BUDGET', '0')) or max(120, n // 200)        # >= 10x the usual wall time (about 1 ms per line), at least 2 minutes
+    log = ''
     while start < n:
-        rc, log = C.run_probe(binary, 'TestVerifC04', ops_path, out_path, env=dict(PROBE_ENV, VERIF_START=str(start)), timeout=3000)
+        alone = start in retried
+        env = dict(PROBE_ENV, VERIF_START=str(start), VERIF_END=str(start + 1) if alone else '0')
+        try:
+            rc, log = C.run_probe(binary, 'TestVerifC04', ops_path, out_path, env=env, timeout=ALONE_BUDGET if alone else budget)
+        except subprocess.TimeoutExpired:
+            rc, log = -9, 'probe exceeded its deadline'
+        if alone and rc == 0:
+            got = C.read_indexed(out_path, n)
+            impl[start] = got[start]
+            start += 1
+            continue
         got = C.read_indexed(out_path, n)
         last = -1
         for i, v in enumerate(got):
@@ -593,16 +628,17 @@ def run_impl(binary, ops_path, out_path, n):
             break
         deaths += 1
         nxt = max(last, start - 1) + 1
+        C.log(f'C04 probe died/hung (rc={rc}) after line {nxt - 1}; {"reproduced on" if nxt in retried else "retrying"} line {nxt} alone')
         if nxt >= n:
             break
         if nxt in retried:
             impl[nxt] = 'crash'
-            start = nxt + 1
+            break           # one reproduced death/hang is a verdict (reported with this line as replay); do not pay for more
         else:
             retried.add(nxt)
             start = nxt
         if deaths > 60:
-            raise C.Infra('C04 probe keeps dying:\n' + log[-2000:])
+            break           # enough evidence: the lines recorded as `crash` are reported; the rest stays unobserved
     return impl, deaths
 
 
@@ -698,6 +734,8 @@ def run(tier):
             raise C.Infra(f'C04 oracle cannot read line {i}: {op}: {e!r}')
         if why:
             bad.append((i, why))
+    if not bad and any(x is None for x in impl):
+        raise C.Infra(f'C04 probe produced no observation for {sum(1 for x in impl if x is None)} lines and none of them reproduces a crash')
     # floors: a lane that silently ran nothing is a machinery error, not a pass
     floors = {'matched-first': 200, 'matched-later': 100, 'default': 100, 'panic-no-suitable': 50,
               'ties(>=2 conditions hold)': 100, 'concurrent calls (goroutines)': 50}
@@ -749,7 +787,7 @@ def run(tier):
         k, v, m, o = T[head[2]]
         s = {0: '', 1: 'method ', 2: 'As()-method '}[m] + (f'variadic+{len(k) - 1}fixed' if v else f'fixed{len(k)}') + f' out{o}'
         shapes[s] = shapes.get(s, 0) + 1
-        md = head[1] + ('+shared-exprs' if len(head) > 4 else '')
+        md = head[1] + ('+shared-exprs' if len(head) > 4 and 's' in head[4] else '') + ('+debug' if len(head) > 4 and 'd' in head[4] else '')
         modes[md] = modes.get(md, 0) + 1
         ncalls += sum(1 if st[0] == 'call' else len(st) - 2 if st[0] == 'conc' else 0 for st in steps)
     nontrivial = len({(op, impl[i]) for i, op in enumerate(ops) if impl[i] and 'ret:' in impl[i]})
